@@ -63,9 +63,25 @@ where
         unsafe { &mut *self.iter.get() }
     }
 
+    /// Returns a guard to be held while the wrapped iterator is used and to be forgotten afterwards:
+    /// if the wrapped iterator panics, the guard marks the iteration as completed while unwinding,
+    /// so that the threads waiting for their turn return instead of waiting forever.
+    #[inline(always)]
+    pub(crate) fn complete_on_unwind(&self) -> CompleteOnUnwind<'_> {
+        CompleteOnUnwind(&self.completed)
+    }
+
     #[inline(always)]
     pub(crate) fn progress_yielded_counter(&self, num_yielded: usize) -> usize {
         self.yielded_counter.fetch_and_add(num_yielded)
+    }
+}
+
+pub(crate) struct CompleteOnUnwind<'a>(&'a AtomicBool);
+
+impl Drop for CompleteOnUnwind<'_> {
+    fn drop(&mut self) {
+        self.0.store(true, atomic::Ordering::SeqCst);
     }
 }
 
@@ -125,7 +141,9 @@ where
                         return None;
                     }
                     // SAFETY: no other thread has the valid condition to iterate, they are waiting
+                    let guard = self.complete_on_unwind();
                     let next = unsafe { self.mut_iter() }.next();
+                    std::mem::forget(guard);
                     match next.is_some() {
                         true => {
                             _ = self.yielded_counter.fetch_and_increment();
@@ -156,11 +174,13 @@ where
         self.progress_and_get_begin_idx(n).and_then(|begin_idx| {
             // SAFETY: no other thread has the valid condition to iterate, they are waiting
             let iter = unsafe { self.mut_iter() };
+            let guard = self.complete_on_unwind();
             let buffer = (0..n)
                 .map(|_| iter.next())
                 .take_while(|x| x.is_some())
                 .map(|x| x.expect("is_some is checked"))
                 .collect::<Vec<_>>();
+            std::mem::forget(guard);
 
             match buffer.len() {
                 0 => {
